@@ -16,7 +16,7 @@ OUT = os.path.join(VERIF, 'out')
 ALL = ['P_T', 'P_TA', 'P_N', 'F_T', 'F_TA', 'F_N', 'V_T', 'V_TA', 'V_N', 'M_T', 'M_NA', 'VV_T']
 VARYING = ['V_T', 'V_TA', 'V_N', 'M_T', 'M_NA', 'VV_T']
 ALIGNED = ['P_TA', 'F_TA', 'V_TA', 'M_NA', 'VV_T']
-NONTRIV = ['P_N', 'F_N', 'V_N', 'M_NA']
+NONTRIV = ['P_N', 'F_N', 'V_N', 'M_NA', 'P_NM']     # P_NM: a non-trivial plain field BETWEEN two trivial ones
 CXX20_LISTS = ['V_T', 'V_N', 'F_T', 'F_N', 'M_NA', 'VV_T', 'P_TA']
 NONTRIV_A = ['V_NA', 'PV_NA']   # non-trivial AlignAs objects whose size is not a multiple of the alignment (relocation overlaps)
 S5Q = ['P_T', 'P_TA', 'P_N', 'F_T', 'F_TA', 'F_N', 'V_T', 'V_TA', 'V_N', 'M_T', 'B_T', 'B_TA', 'VB_T', 'P_TB', 'B_B', 'BB_T', 'SB_T',
@@ -104,9 +104,17 @@ def ul(tier):
                    ('pairs', True, False, 1, False, 1), ('pairs2', True, False, 1, False, 1),
                    ('triples', True, False, 1, False, 1), ('pairs3', True, None, 1, True, 1)]
         out = []
-        for name, fine, cheap, every, everything, reps in sel:
-            for d in vlib.select_lists(name, fine, cheap, every, everything, reps):
-                out.append(('SU', vlib.cfg_of_list(d), 'AE', 'asan0'))
+        seen = set()
+        picked = [d for name, fine, cheap, every, everything, reps in sel
+                  for d in vlib.select_lists(name, fine, cheap, every, everything, reps)]
+        if tier == 'quick':
+            # plus one list per signature of those whose parameter sizes are misleading about where they end
+            picked += vlib.select_where('triples', vlib.misleading_size)
+        for d in picked:
+            cfg = vlib.cfg_of_list(d)
+            if cfg['id'] not in seen:
+                seen.add(cfg['id'])
+                out.append(('SU', cfg, 'AE', 'asan0'))
         return out
     return units
 
@@ -124,7 +132,7 @@ class Units(list):
 # property -> units per tier, judgement kinds routed to it, crash routing, extra filter
 PROPS = {
     'C01': {'level': 'model_checking',
-            'units': {'quick': u('S1', ALL + ['Z_T', 'ZP_T']) + u('SR', ['V_T', 'V_N', 'F_N', 'M_NA']) + u('S1sim', ['V_T', 'M_NA'])
+            'units': {'quick': u('S1', ALL + ['Z_T', 'ZP_T', 'P_NM'] + NONTRIV_A) + u('SR', ['V_T', 'V_N', 'F_N', 'M_NA']) + u('S1sim', ['V_T', 'M_NA'])
                                + u('S1', ['V_N', 'M_T'], ('AE',), ('cxx20',)),
                       'thorough': u('S1', ALL, ('AE', 'NP')) + u('S1', ALL, ('AE',), ('ndebug',)) + u('SR', ALL, ('AE', 'PR'))
                                   + u('S1sim', ALL, ('AE',)) + u('S1', CXX20_LISTS, ('AE',), ('cxx20',))},
@@ -139,7 +147,7 @@ PROPS = {
             'technique': 'TLC-enumerated histories and payload distributions replayed under ASan with poisoned '
                          'redzones; observed addresses judged against block bounds by Trace.tla/Layout.tla'},
     'C03': {'level': 'model_checking',
-            'units': {'quick': Units(u('S1', ALIGNED) + u('SF', ['V_TA', 'M_NA', 'VV_T'])
+            'units': {'quick': Units(u('S1', ALIGNED + NONTRIV_A) + u('SF', ['V_TA', 'M_NA', 'VV_T'])
                                      + u('S1', ['V_TA', 'M_NA'], ('AE',), ('ndebug',)) + u('S1', ['M_NA'], ('AE',), ('ndebug20',)), ul('quick')),
                       'thorough': Units(u('S1', ALIGNED, ('AE', 'NP')) + u('SF', ['V_TA', 'M_NA', 'VV_T'])
                                         + u('S1', ALIGNED, ('AE',), ('ndebug',)) + u('S2', ALIGNED, ('AE',), ('ndebug',))
@@ -149,22 +157,24 @@ PROPS = {
                          'recorded state; blocks based at odd multiples of the storage alignment; includes the g++ -O2 -DNDEBUG '
                          'build in which the library\'s assume_aligned hints are live'},
     'C04': {'level': 'model_checking',
-            'units': {'quick': Units(u('S1', ALL) + u('SF', VARYING) + u('S2', ALL, ('NP',)), ul('quick')),
-                      'thorough': Units(u('S1', ALL, ('AE', 'NP')) + u('SF', VARYING) + u('S2', ALL, ('NP', 'AE', 'PR')), ul('thorough'))},
+            'units': {'quick': Units(u('S1', ALL + NONTRIV_A) + u('SF', VARYING) + u('S2', ALL, ('NP',)), ul('quick')),
+                      'thorough': Units(u('S1', ALL + NONTRIV_A, ('AE', 'NP')) + u('SF', VARYING) + u('S2', ALL, ('NP', 'AE', 'PR')), ul('thorough'))},
             'kinds': K_ORDER, 'crash': never, 'filter': None,
             'technique': 'observed field/element ranges judged by Layout!ElemsInOrder (order, containment, '
                          'disjointness, span counts, iterator.data) in every recorded state'},
     'C05': {'level': 'model_checking',
-            'units': {'quick': Units(u('S1', ALL) + u('SF', VARYING) + u('S2', ALL, ('NP',)), ul('quick')),
-                      'thorough': Units(u('S1', ALL, ('AE', 'NP')) + u('SF', VARYING) + u('S2', ALL, ('NP', 'AE', 'PR')), ul('thorough'))},
+            'units': {'quick': Units(u('S1', ALL + NONTRIV_A) + u('SF', VARYING) + u('S2', ALL, ('NP',)), ul('quick')),
+                      'thorough': Units(u('S1', ALL + NONTRIV_A, ('AE', 'NP')) + u('SF', VARYING) + u('S2', ALL, ('NP', 'AE', 'PR')), ul('thorough'))},
             'kinds': K_TIGHT, 'crash': never, 'filter': None,
             'technique': 'observed offsets compared with the greedy layout of Layout.tla; footprint judged against '
                          'the observed footprint of a fresh vector'},
     'C06': {'level': 'model_checking',
-            'units': {'quick': u('S1', NONTRIV + NONTRIV_A) + u('S2', NONTRIV, ('NP', 'PR')) + u('S1', ['V_N'], ('AE',), ('cxx20',)),
+            'units': {'quick': u('S1', NONTRIV + NONTRIV_A) + u('S2', NONTRIV, ('NP', 'PR')) + u('S1', ['V_N'], ('AE',), ('cxx20',))
+                               + u('S4', NONTRIV),      # assignment / swap through references: no live object may be clobbered bytewise
                       'thorough': u('S1', NONTRIV + NONTRIV_A, ('AE', 'NP')) + u('S2', NONTRIV + NONTRIV_A, ('NP', 'AE', 'PR'))
                                   + u('SR', NONTRIV, ('AE', 'PR')) + u('S1sim', NONTRIV, ('AE',)) + u('S2sim', NONTRIV, ('NP',))
-                                  + u('S1', NONTRIV + NONTRIV_A, ('AE',), ('cxx20',)) + u('S2', NONTRIV, ('NP',), ('cxx20',))},
+                                  + u('S1', NONTRIV + NONTRIV_A, ('AE',), ('cxx20',)) + u('S2', NONTRIV, ('NP',), ('cxx20',))
+                                  + u('S4', NONTRIV + NONTRIV_A) + u('S4x', NONTRIV)},
             'kinds': K_LIFE | {'VALUES'}, 'crash': crash_any, 'filter': None,
             'technique': 'constructor/assignment/destructor events of the instrumented value type inside every '
                          'operation folded by the lifetime sub-machine of Trace.tla; live objects compared with the '
@@ -202,8 +212,8 @@ PROPS = {
             'technique': 'every Reserve step of the TLC-generated histories (no-op and growing, any fill level) '
                          'judged by Trace.tla: contents, capacity, block stability when n <= capacity'},
     'C11': {'level': 'model_checking',
-            'units': {'quick': u('S4', ALL) + u('S4x', ['F_T', 'F_N', 'V_T', 'P_N', 'F_TA']) + u('S4', ['F_T', 'V_N'], ('AE',), ('cxx20',)),
-                      'thorough': u('S4', ALL) + u('S4x', ALL) + u('S4', ['F_T', 'F_N', 'V_T', 'V_N', 'P_TA'], ('AE',), ('cxx20',))},
+            'units': {'quick': u('S4', ALL + ['P_NM']) + u('S4x', ['F_T', 'F_N', 'V_T', 'P_N', 'F_TA', 'P_NM']) + u('S4', ['F_T', 'V_N'], ('AE',), ('cxx20',)),
+                      'thorough': u('S4', ALL + ['P_NM'] + NONTRIV_A) + u('S4x', ALL + ['P_NM']) + u('S4', ['F_T', 'F_N', 'V_T', 'V_N', 'P_TA'], ('AE',), ('cxx20',))},
             'kinds': K_SEQ | K_LIFE | {'PATHS_DISAGREE', 'ITERATOR_ARITHMETIC', 'ALLOCATOR_USED', 'BYSTANDER_CHANGED'},
             'crash': crash_any, 'filter': None,
             'technique': 'TLA+ model of references/iterators as proxies (assignment, move assignment, swap, iter_swap, '
